@@ -514,13 +514,14 @@ def run_target(target, repo=None, timeout_ms=QUICK_TIMEOUT_MS, tier='quick'):
     reg.inline_now = set(reg.inline_now) | {target.qualname}
     work = [[]]
     seen = 0
-    budget_s = getattr(target, 'time_budget_s', None) or (150 if tier == 'quick' else 1200)
-    deadline = t0 + budget_s
+    # budget in CPU seconds of this worker (not wall-clock): the verdict does not depend on how busy the machine is
+    budget_s = getattr(target, 'time_budget_s', None) or (300 if tier == 'quick' else 2400)
+    cpu0 = time.process_time()
     while work:
         prefix = work.pop()
         seen += 1
-        if time.time() > deadline:
-            res['undecided'].append('time budget of the target exceeded (%ds)' % budget_s)
+        if time.process_time() - cpu0 > budget_s:
+            res['undecided'].append('time budget of the target exceeded (%ds CPU)' % budget_s)
             break
         if seen > target.max_paths:
             res['undecided'].append('path budget exceeded (%d)' % target.max_paths)
@@ -528,7 +529,7 @@ def run_target(target, repo=None, timeout_ms=QUICK_TIMEOUT_MS, tier='quick'):
         Vv.reset_fresh()
         ip = Interp(repo, reg, prefix, solver_timeout_ms=timeout_ms)
         ip.target = target
-        ip.deadline = deadline
+        ip.deadline = cpu0 + budget_s          # (compared with time.process_time() in the interpreter)
         ctx = {}
         try:
             ctx = target.scenario(ip, repo)
